@@ -915,6 +915,116 @@ fn two_hash_case(out: &mut Out, r: &mut Rng) {
     seq_case(out, r, &mut sut, &pool, &cls_of, &classify, Some(&created), nops, Some(K_TWO_HASH));
 }
 
+/// Table growth and shrinkage (round 4, after seed C06-7): hashbrown re-hashes every entry when a table's capacity
+/// changes, with whatever re-hasher the registry hands it. Keys of a third-party type (`SipKey`: derived `Hash`, std's
+/// SipHash as `Hashable::Hasher`) and ordinary `Key`s are registered by the hundred, most of them deleted again, and
+/// registered again — every survivor must still be found under its one storage, every delete must answer truthfully,
+/// listings must show each live key once. Oracle-only (the model has no capacity).
+fn churn_case(out: &mut Out, r: &mut Rng, thorough: bool) {
+    fn classify(k: &SipKey) -> String {
+        k.0.clone()
+    }
+    for round in 0..if thorough { 6 } else { 2 } {
+        out.case(&format!("churn third-party keys round {}", round));
+        let ctr = Arc::new(AtomicUsize::new(0));
+        let reg = Registry::new(CountingStorage::<SipKey> { next: ctr.clone(), classify });
+        let n = r.range(300, 1400);
+        let key = |i: usize| SipKey(format!("churn_{}_{}", round, i));
+        let mut live: BTreeMap<usize, usize> = BTreeMap::new();
+        let mut fails: Vec<String> = vec![];
+        for i in 0..n {
+            let a = reg.get_or_create_counter(&key(i), |c| c.addr());
+            live.insert(i, a);
+        }
+        // delete most, in a seeded order; check the survivors after every batch
+        let mut order: Vec<usize> = (0..n).collect();
+        for i in (1..order.len()).rev() {
+            order.swap(i, r.below(i + 1));
+        }
+        let keep = r.range(3, 40);
+        for (j, i) in order.iter().enumerate().take(n - keep) {
+            if !reg.delete_counter(&key(*i)) {
+                fails.push(format!("delete_counter({}) answered false for a live key", i));
+            }
+            live.remove(i);
+            if j % 97 == 0 || j + 1 == n - keep {
+                for (k, a) in live.iter().take(50) {
+                    match reg.get_counter(&key(*k)) {
+                        Some(h) if h.addr() == *a => {}
+                        Some(_) => fails.push(format!("get_counter({}) returned another storage after {} deletions", k, j + 1)),
+                        None => fails.push(format!("get_counter({}) finds nothing after {} deletions of OTHER keys", k, j + 1)),
+                    }
+                }
+            }
+        }
+        // survivors: get_or_create must hit, listings must agree
+        for (k, a) in live.iter() {
+            let b = reg.get_or_create_counter(&key(*k), |c| c.addr());
+            if b != *a {
+                fails.push(format!("get_or_create_counter({}) of a live key made a second storage", k));
+            }
+        }
+        let mut visited = 0usize;
+        reg.visit_counters(|_, _| visited += 1);
+        if visited != live.len() || reg.get_counter_handles().len() != live.len() {
+            fails.push(format!("listing shows {} entries / handles {} for {} live keys", visited, reg.get_counter_handles().len(), live.len()));
+        }
+        // grow again
+        for i in 0..n / 2 {
+            let a = reg.get_or_create_counter(&key(i), |c| c.addr());
+            if let Some(old) = live.get(&i) {
+                if *old != a {
+                    fails.push(format!("after regrowth get_or_create_counter({}) of a live key made a second storage", i));
+                }
+            }
+            live.insert(i, a);
+        }
+        for (k, a) in live.iter() {
+            if reg.get_counter(&key(*k)).map(|h| h.addr()) != Some(*a) {
+                fails.push(format!("after regrowth get_counter({}) does not return the key's storage", k));
+                break;
+            }
+        }
+        out.count("churn.third_party_rounds");
+        out.nontrivial();
+        if let Some(f) = fails.first() {
+            out.oracle_fail(
+                "third-party keys: after the table grew / shrank, a live key is not found under its one storage (or a delete / listing is untruthful)",
+                &format!("{} keys, {} kept; {} failures, first: {}", n, keep, fails.len(), f),
+            );
+        }
+    }
+    // the same churn with ordinary Keys on Registry::atomic()
+    out.case("churn metrics::Key");
+    let reg: Registry<Key, AtomicStorage> = Registry::atomic();
+    let n = r.range(300, 1200);
+    let key = |i: usize| Key::from_parts(format!("churn_k_{}", i), vec![Label::new("i", (i % 7).to_string())]);
+    let mut live: BTreeMap<usize, usize> = BTreeMap::new();
+    let mut bad = 0usize;
+    for i in 0..n {
+        live.insert(i, reg.get_or_create_gauge(&key(i), |c| c.addr()));
+    }
+    for i in 0..n {
+        if i % 11 != 0 {
+            if !reg.delete_gauge(&key(i)) {
+                bad += 1;
+            }
+            live.remove(&i);
+        }
+    }
+    for (k, a) in live.iter() {
+        if reg.get_or_create_gauge(&key(*k), |c| c.addr()) != *a {
+            bad += 1;
+        }
+    }
+    let mut visited = 0usize;
+    reg.visit_gauges(|_, _| visited += 1);
+    if bad > 0 || visited != live.len() {
+        out.oracle_fail("metrics::Key: after the table grew / shrank, a live key is not found under its one storage", &format!("{} keys, {} bad answers, visit shows {} of {}", n, bad, visited, live.len()));
+    }
+    out.count("churn.key_round");
+}
+
 /// The innocent witness, run once per check and only counted: 64 distinct `SipKey`s (derived `Hash`,
 /// `type Hasher = std DefaultHasher`, default `hashable()`), each registered twice as a counter on a fresh registry.
 /// (Not compared with the model: with two unrelated hash functions a lookup may hit by an accidental 7-bit tag match.)
@@ -2180,6 +2290,10 @@ pub fn run(cfg: &Cfg, out: &mut Out) {
     {
         out.case("sipkey witness");
         sip_key_witness(out);
+        {
+            let mut r = root.fork(9_000_777);
+            churn_case(out, &mut r, cfg.thorough);
+        }
         let n_t = (cfg.cases / 12).max(8);
         for i in 0..n_t {
             let mut r = root.fork(3_000_000 + i as u64);
